@@ -71,13 +71,14 @@ pub fn rawvec_reserve_fixed(v: &mut RawVector, additional: usize) {
 // the explicit-offset ("long") path; later calls (IntVector::pack) are exact. Instances without
 // this stub run the real rule, which is the block-sample ("short") path for vectors this small.
 // Answers must not depend on the regime.
-static mut BIT_LEN_CALLS: usize = 0;
-pub fn reset_regime() { unsafe { BIT_LEN_CALLS = 0; } }
+// (initialised non-zero: kani-compiler 0.68 may alias zero-initialised statics with interned zero constants)
+static mut BIT_LEN_CALLS: usize = 0x0B17_0000;
+pub fn reset_regime() { unsafe { BIT_LEN_CALLS = 0x0B17_0000; } }
 pub fn bit_len_force_long(n: u64) -> usize {
     let real = 64 - ((n | 1).leading_zeros() as usize);
     unsafe {
         BIT_LEN_CALLS += 1;
-        if BIT_LEN_CALLS == 1 { return 0; }
+        if BIT_LEN_CALLS == 0x0B17_0001 { return 0; }
     }
     real
 }
@@ -100,10 +101,11 @@ pub fn str_from_utf8_ascii(bytes: &[u8]) -> Result<&str, std::str::Utf8Error> {
 // bit-blast. The low-part width the REAL rule picks for the instance's (universe, ones) is
 // computed natively from /repo at generation time (kvlib/native.py) and passed to the template,
 // which stores it here; buckets = ceil(universe / 2^w) as the format document says.
-static mut SPARSE_W: usize = 1;
-pub fn set_sparse_width(w: usize) { unsafe { SPARSE_W = w; } }
+const SPARSE_TAG: usize = 0x59A2_0000; // unique initial bytes, see the NOTE in stubs_bv.rs
+static mut SPARSE_W: usize = SPARSE_TAG + 1;
+pub fn set_sparse_width(w: usize) { unsafe { SPARSE_W = SPARSE_TAG + w; } }
 pub fn sparse_get_params(universe: usize, ones: usize) -> (usize, usize) {
-    let w = unsafe { SPARSE_W };
+    let w = unsafe { SPARSE_W } - SPARSE_TAG;
     let mut buckets = if w < 64 { universe >> w } else { 0 };
     let mask = if w < 64 { (1usize << w) - 1 } else { !0usize };
     if universe & mask != 0 { buckets += 1; }
